@@ -68,3 +68,4 @@ Definition norm (kind : string) (e : json) : option json :=
   else None.
 
 Definition rt_shipped (doc : json) : option json := rt_doc types_shipped props_shipped url_ok norm_iri norm 8 doc.
+Definition cx_shipped (doc : json) : option (list string) := cx_doc types_shipped props_shipped url_ok norm_iri norm 8 doc.
